@@ -44,7 +44,7 @@ def asetdefault {κ β : Type} [DecidableEq κ] (k : κ) (v : β) (d : List (κ 
 def build {σ : Type} [DecidableEq σ] (d : DFA σ α) : Res (DFA σ α) := d.mk' true
 
 /-- `n` as a Python `int`. -/
-abbrev nat (n : Nat) : Int := Int.ofNat n
+def nat (n : Nat) : Int := Int.ofNat n
 
 /-- `states - final_states`. -/
 def sdiff {σ : Type} [DecidableEq σ] (s t : List σ) : List σ := s.filter fun q => decide (q ∉ t)
@@ -64,10 +64,9 @@ def emptyLanguage (syms : List α) : Res (DFA Int α) := build (loopDFA 0 syms f
 
 /-! ### from_prefix -/
 
-/-- `{i: {char: i + 1} for i, char in enumerate(prefix)}` (indices start at `n`). -/
-def chainRows : List α → Nat → List (Int × List (α × Int))
-  | [], _ => []
-  | c :: p, n => (nat n, [(c, nat n + 1)]) :: chainRows p (n + 1)
+/-- `{i: {char: i + 1} for i, char in enumerate(prefix)}`. -/
+def chainRows (p : List α) : List (Int × List (α × Int)) :=
+  p.zipIdx.map fun ci => (nat ci.2, [(ci.1, nat ci.2 + 1)])
 
 /-- `for symbol in input_symbols: state_path.setdefault(symbol, err_state)`. -/
 def fillRow (syms : List α) (err : Int) (row : List (α × Int)) : List (α × Int) :=
@@ -76,7 +75,7 @@ def fillRow (syms : List α) (err : Int) (row : List (α × Int)) : List (α × 
 /-- The transition table of `from_prefix`. -/
 def prefixTable (syms p : List α) (complete : Bool) : List (Int × List (α × Int)) :=
   let last : Int := nat p.length
-  let t0 := ainsert last (rowOf syms fun _ => last) (chainRows p 0)
+  let t0 := ainsert last (rowOf syms fun _ => last) (chainRows p)
   if complete then
     ainsert (-1) (rowOf syms fun _ => (-1 : Int)) (t0.map fun kv => (kv.1, fillRow syms (-1) kv.2))
   else t0
@@ -325,14 +324,16 @@ def fromSubstrings (syms : List α) (pats : List (List α)) (contains : Bool := 
 
 /-! ### from_subsequence -/
 
-/-- Rows `n, n+1, …` of the subsequence ladder for the remaining characters. -/
-def subseqRows (syms : List α) : List α → Nat → List (Int × List (α × Int))
-  | [], n => [(nat n, rowOf syms fun _ => nat n)]
-  | c :: p, n => (nat n, ainsert c (nat n + 1) (rowOf syms fun _ => nat n)) :: subseqRows syms p (n + 1)
+/-- The ladder of `from_subsequence`: row `i` loops on every symbol except `subsequence[i]`,
+which climbs (`transitions[prev_state][char] = next_state`); the last row (created by the last
+iteration, or the initial `{0: …}` for the empty pattern) only loops. -/
+def subseqRows (syms p : List α) : List (Int × List (α × Int)) :=
+  ainsert (nat p.length) (rowOf syms fun _ => nat p.length)
+    (p.zipIdx.map fun ci => (nat ci.2, ainsert ci.1 (nat ci.2 + 1) (rowOf syms fun _ => nat ci.2)))
 
 /-- `DFA.from_subsequence(input_symbols, subsequence, contains=…)`. -/
 def fromSubsequence (syms p : List α) (contains : Bool := true) : Res (DFA Int α) :=
-  let t := subseqRows syms p 0
+  let t := subseqRows syms p
   let states := akeys t
   build { states := states, syms := syms, trans := t, init := 0,
           finals := if contains then [nat p.length] else sdiff states [nat p.length],
